@@ -7,7 +7,8 @@ Open Scope list_scope.
 Open Scope Z_scope.
 
 Lemma src_sequence_init_eq : forall ty v blk,
-  src_sequence_init ty v blk = match mk_sequence ty v blk with Some _ => RetNone | None => Raise end.
+  src_sequence_init ty v blk = match mk_sequence ty v blk with
+  | Some s => Ok (Some (seq_type s), Some (seq_value s), Some (seq_is_block s)) | None => Raise end.
 Proof.
   intros ty v blk. unfold src_sequence_init, mk_sequence. tie_auto.
 Qed.
